@@ -14,26 +14,32 @@ GAPS = [" ", " ", "  ", "\n", "\n\n", "\n    ", "      ", " \n  ", "\n\n\n"]
 STRINGS = ['"a\nb"', '"é\n€\n\U0001F600"', '"\n"', '"x\\n\ny"', '"é"', '"  two  spaces  "', '"// not a comment"', '"{ [ ("', '"a\n    indented\n  b"']
 
 
-def perturb(rnd, src, toks):
-    """Same tokens (string literals possibly replaced), different layout."""
+def perturb(rnd, src, toks, wild=False):
+    """Same tokens (string literals possibly replaced), different layout.
+    mild: line structure kept (a gap with a newline keeps one, a gap without stays on its line); indentation,
+          spacing inside lines, blank lines and comment lines vary.
+    wild: line breaks may also appear inside statements and disappear between them."""
     parts, tail = fe.split_tokens(src, toks)
     out = []
     for k, (gap, t) in enumerate(parts):
         if t.startswith('"') and t.endswith('"') and len(t) >= 2 and rnd.random() < 0.5:
             t = rnd.choice(STRINGS)
         r = rnd.random()
-        if k == 0:
+        if k == 0 or gap == "":
+            g = gap                                   # adjacency can be syntax (`Foo{`, `f(`, `-1`)
+        elif "//" in gap:
             g = gap
-        elif "//" in gap or "\n" in gap and r < 0.5:
-            g = gap                                   # keep comments and half of the line breaks where they are
-            if "\n" in gap and rnd.random() < 0.15:
-                g = gap.replace("\n", "\n// note é\U0001F600\n", 1)
-        elif gap == "":
-            g = ""                                    # adjacency can be syntax (`Foo{`, `f(`, `-1`)
-        elif r < 0.85:
-            g = rnd.choice(GAPS[:3]) if "\n" not in gap else rnd.choice(GAPS)
+        elif "\n" in gap:
+            if wild and r < 0.2:
+                g = rnd.choice(GAPS[:3])
+            else:
+                g = rnd.choice(["\n", "\n", "\n\n", "\n\n\n"]) + " " * rnd.choice([0, 0, 2, 4, 7])
+                if rnd.random() < 0.12:
+                    g = "\n// note \u00e9\U0001F600" + g
+        elif wild and r < 0.15:
+            g = rnd.choice(GAPS[3:])
         else:
-            g = rnd.choice(GAPS)
+            g = rnd.choice(GAPS[:3])
         out.append(g + t)
     return "".join(out) + tail
 
@@ -63,6 +69,7 @@ def family(tier, seed, with_mutations=False):
         if r.get("tokens"):
             for _ in range(1 if tier == "quick" else 3):
                 texts.append((name + "+layout", perturb(rnd, s, r["tokens"])))
+                texts.append((name + "+wildlayout", perturb(rnd, s, r["tokens"], wild=True)))
             if with_mutations:
                 for kind, m in fe.mutations(rnd, s, r["tokens"], 1 if tier == "quick" else 3):
                     texts.append((name + "+" + kind, m))
